@@ -659,7 +659,10 @@ static void judge_pss(rsak_t *K, const halg_t *H, int vsalt, const unsigned char
     rec("rsa-pss-verify", K->label, variant, pos);
     int got = ms_pss_verify(K, H, vsalt, mh, H->hlen, sig, siglen, &rc);
     verdict_stat("rsa-pss-verify", got);
-    if (got && !o)
+    if (siglen < K->k && o) {
+        /* RFC 8017 8.1.2 step 1 says a signature shorter than k octets is invalid; libcrypto takes it as an integer. Either verdict is tolerated. */
+        vf_stat(got ? "lenient_rsa_pss_short_signature_accepted" : "strict_rsa_pss_short_signature_rejected", 1);
+    } else if (got && !o)
         viol("rsa-pss-verify", badcls, "accepted a PSS signature libcrypto rejects: key %s hash %s saltlen %d variant %s pos %s siglen %d (k=%d) sig=%s",
              K->label, H->name, vsalt, variant, pos ? pos : "-", siglen, K->k, hx(sig, siglen));
     else if (!got && o)
